@@ -19,7 +19,9 @@ def evaluate(e, env):
         if e.id in env:
             return env[e.id]
         raise NoEval(e.id)
-    if isinstance(e, (ast.List, ast.Tuple, ast.Set)):
+    if isinstance(e, ast.Tuple):
+        return tuple(evaluate(x, env) for x in e.elts)
+    if isinstance(e, (ast.List, ast.Set)):
         return [evaluate(x, env) for x in e.elts]
     if isinstance(e, ast.UnaryOp) and isinstance(e.op, ast.USub):
         return -evaluate(e.operand, env)
@@ -30,8 +32,38 @@ def evaluate(e, env):
         return l + r if isinstance(e.op, ast.Add) else l - r
     if isinstance(e, ast.Subscript):
         return evaluate(e.value, env)[evaluate(e.slice, env)]
+    if isinstance(e, ast.Call) and "__stubs__" in env and src(e) in env["__stubs__"]:
+        return env["__stubs__"][src(e)]          # a call whose result is supplied as a case parameter (never executed)
     if isinstance(e, ast.Call) and isinstance(e.func, ast.Name) and e.func.id == "len" and len(e.args) == 1:
         return len(evaluate(e.args[0], env))
+    if isinstance(e, ast.Call) and isinstance(e.func, ast.Name) and e.func.id in env.get("__funcs__", {}) and not e.keywords:
+        # a module-level helper of the analysed program: interpreted the same way (never executed)
+        return call_function(env["__funcs__"][e.func.id], [evaluate(a, env) for a in e.args], stubs=env.get("__stubs__"),
+                             funcs=env["__funcs__"], _depth=env.get("__depth__", 0) + 1)
+    if isinstance(e, ast.Call) and isinstance(e.func, ast.Name) and e.func.id in _PURE and e.func.id not in env:
+        kw = {k.arg: evaluate(k.value, env) for k in e.keywords}
+        if any(k is None for k in kw) or (kw and set(kw) - {"reverse"}):
+            raise NoEval(src(e)[:40])
+        args = [evaluate(a, env) for a in e.args]
+        v = _PURE[e.func.id](*args, **kw)
+        return list(v) if e.func.id in ("reversed", "zip", "enumerate", "range", "map") else v
+    if isinstance(e, (ast.ListComp, ast.GeneratorExp, ast.SetComp)):
+        out = []
+
+        def rec(i, env2):
+            if i == len(e.generators):
+                out.append(evaluate(e.elt, env2))
+                return
+            g = e.generators[i]
+            for item in evaluate(g.iter, env2):
+                env3 = dict(env2)
+                _bind(g.target, item, env3)
+                if all(evaluate(c, env3) for c in g.ifs):
+                    rec(i + 1, env3)
+        rec(0, env)
+        return out
+    if isinstance(e, ast.IfExp):
+        return evaluate(e.body, env) if evaluate(e.test, env) else evaluate(e.orelse, env)
     if isinstance(e, ast.Attribute):
         d = dotted(e)
         if d in env:
@@ -48,6 +80,13 @@ def evaluate(e, env):
             if evaluate(v, env):
                 return True
         return False
+    if isinstance(e, ast.Compare) and len(e.ops) > 1:
+        left = e.left
+        for op, right in zip(e.ops, e.comparators):
+            if not evaluate(ast.Compare(left=left, ops=[op], comparators=[right]), env):
+                return False
+            left = right
+        return True
     if isinstance(e, ast.Compare) and len(e.ops) == 1:
         l, r = evaluate(e.left, env), evaluate(e.comparators[0], env)
         op = e.ops[0]
@@ -56,6 +95,23 @@ def evaluate(e, env):
         if type(op) in table:
             return table[type(op)]()
     raise NoEval(src(e)[:40])
+
+
+_PURE = {"sorted": sorted, "all": all, "any": any, "min": min, "max": max, "abs": abs, "sum": sum, "list": list, "tuple": tuple,
+         "reversed": reversed, "zip": zip, "enumerate": enumerate, "range": range, "set": lambda *a: sorted(set(*a)), "int": int, "bool": bool}
+
+
+def _bind(target, value, env):
+    if isinstance(target, ast.Name):
+        env[target.id] = value
+    elif isinstance(target, (ast.Tuple, ast.List)):
+        vals = list(value)
+        if len(vals) != len(target.elts):
+            raise NoEval("unpacking")
+        for t, v in zip(target.elts, vals):
+            _bind(t, v, env)
+    else:
+        raise NoEval("binding target")
 
 
 def execute(stmts, env):
@@ -73,3 +129,93 @@ def execute(stmts, env):
             raise NoEval(src(st)[:40])
 
 
+
+
+class _Return(Exception):
+    def __init__(self, value):
+        self.value = value
+
+
+class _Break(Exception):
+    pass
+
+
+class _Continue(Exception):
+    pass
+
+
+def _run(stmts, env, fuel):
+    for st in stmts:
+        fuel[0] -= 1
+        if fuel[0] < 0:
+            raise NoEval("evaluation budget exceeded")
+        if isinstance(st, ast.Return):
+            raise _Return(None if st.value is None else evaluate(st.value, env))
+        if isinstance(st, ast.Assign) and len(st.targets) == 1:
+            _bind(st.targets[0], evaluate(st.value, env), env)
+        elif isinstance(st, ast.AugAssign) and isinstance(st.target, ast.Name) and isinstance(st.op, (ast.Add, ast.Sub)):
+            v = evaluate(st.value, env)
+            env[st.target.id] = env[st.target.id] + v if isinstance(st.op, ast.Add) else env[st.target.id] - v
+        elif isinstance(st, ast.If):
+            _run(st.body if evaluate(st.test, env) else st.orelse, env, fuel)
+        elif isinstance(st, ast.For):
+            broke = False
+            for item in evaluate(st.iter, env):
+                _bind(st.target, item, env)
+                try:
+                    _run(st.body, env, fuel)
+                except _Break:
+                    broke = True
+                    break
+                except _Continue:
+                    continue
+            if not broke:
+                _run(st.orelse, env, fuel)
+        elif isinstance(st, ast.While):
+            while evaluate(st.test, env):
+                try:
+                    _run(st.body, env, fuel)
+                except _Break:
+                    break
+                except _Continue:
+                    continue
+        elif isinstance(st, ast.Break):
+            raise _Break()
+        elif isinstance(st, ast.Continue):
+            raise _Continue()
+        elif isinstance(st, ast.Pass) or (isinstance(st, ast.Expr) and isinstance(st.value, ast.Constant)):
+            continue
+        elif isinstance(st, ast.Expr) and isinstance(st.value, ast.Call) and (dotted(st.value.func) or "").startswith("logger."):
+            continue
+        else:
+            raise NoEval(src(st)[:40])
+
+
+def call_function(funcdef, args, fuel=20000, stubs=None, funcs=None, _depth=0):
+    """Abstractly interpret a small pure function (assignments, if/for/while, return; pure builtins) on concrete arguments.
+    Nothing of the repository is imported or executed; anything outside the interpreted subset raises NoEval."""
+    params = [a.arg for a in funcdef.args.args]
+    if len(params) != len(args):
+        raise NoEval("arity")
+    env = dict(zip(params, args))
+    if stubs:
+        env["__stubs__"] = stubs
+    if funcs:
+        if _depth > 6:
+            raise NoEval("helper nesting too deep")
+        env["__funcs__"] = funcs
+        env["__depth__"] = _depth
+    try:
+        _run(funcdef.body, env, [fuel])
+    except _Return as r:
+        return r.value
+    return None
+
+
+def module_helpers(prog):
+    """Module-level functions of the analysed program by (unique) name, for call_function(..., funcs=...)."""
+    out = {}
+    for _m, q, f in prog.all_functions():
+        if "." not in q:
+            out[q] = None if q in out else f
+    return {k: v for k, v in out.items() if v is not None}
